@@ -34,7 +34,7 @@ def tiles_on_disk(d, ext):
     return out
 
 
-def check_dir(h, tag, d, scheme_short, lines, py, expect_levels=None, full=True):
+def check_dir(h, tag, d, scheme_short, lines, py, expect_levels=None, full=True, canvas=None):
     """WTML template expanded over all positions vs directory listing, both ways."""
     wt = os.path.join(d, "index_rel.wtml")
     if not os.path.exists(wt):
@@ -68,6 +68,28 @@ def check_dir(h, tag, d, scheme_short, lines, py, expect_levels=None, full=True)
         missing = sorted(set(exp) - disk)
         if missing:
             h.violation(f"url:{tag}", f"{tag}: the template names {missing[0]} (position {exp[missing[0]]}) but no such file was written", input=tag, observed=missing[:5])
+    # the file the template names for a deepest-level position must hold *that* position's pixels
+    if canvas is not None:
+        from toasty.pyramid import PyramidIO, Pos
+        for x in range(2 ** lv):
+            for y in range(2 ** lv):
+                rel = expand(url, lv, x, y)
+                p = os.path.join(d, rel)
+                if not os.path.exists(p):
+                    continue
+                from toasty.image import ImageLoader
+                arr = ImageLoader().load_path(p).asarray()
+                if ext == "fits":
+                    arr = arr[::-1]
+                want = canvas[256 * y:256 * y + 256, 256 * x:256 * x + 256]
+                got = arr[..., :want.shape[-1]] if arr.ndim == 3 and want.ndim == 3 else arr
+                m = ~np.isnan(want) if want.dtype.kind == "f" else (want.sum(axis=-1) > 0 if want.ndim == 3 else want != 0)
+                if got.shape[:2] != (256, 256) or not np.array_equal(np.asarray(got)[m], want[m]):
+                    h.violation(f"content:{tag}", f"{tag}: the file {rel} named by the WTML template for position ({lv},{x},{y}) does not hold that position's pixels", input=tag)
+                    break
+            else:
+                continue
+            break
     # model correspondence: template and path for a sample of positions
     for p in list(disk)[:6]:
         if p in exp:
@@ -153,7 +175,11 @@ def main():
                     tag = f"study/{short}/{fmt}/{w}x{hh}"
                     h.case((tag,))
                     h.count("workflow", "study")
-                    check_dir(h, tag, d, short, lines, py, expect_levels=int(math.log2(p2n // 256)), full=False)
+                    gx0, gy0 = (p2n - w) // 2, (p2n - hh) // 2
+                    cshape = (p2n, p2n) + arr.shape[2:]
+                    canvas = np.zeros(cshape, dtype=arr.dtype) if arr.dtype.kind != "f" else np.full(cshape, np.nan, dtype=arr.dtype)
+                    canvas[gy0:gy0 + hh, gx0:gx0 + w] = arr
+                    check_dir(h, tag, d, short, lines, py, expect_levels=int(math.log2(p2n // 256)), full=False, canvas=canvas)
                     shutil.rmtree(d, ignore_errors=True)
         # ---- all-sky TOAST
         sky = np.random.RandomState(7).randint(1, 255, size=(64, 128, 3)).astype(np.uint8)
@@ -237,13 +263,17 @@ def main():
                     pass
 
                 def process(self, unique_id, cand_data_stream, cachedir, builder):
-                    arr = np.random.RandomState(3).randint(1, 255, size=(300, 520, 3)).astype(np.uint8)
+                    arr = STUB_ARR
                     builder.tile_base_as_study(Image.from_array(arr))
                     builder.default_tiled_study_astrometry()
                     builder.set_name(unique_id)
                     builder.cascade(parallel=1)
 
             PL.IMAGE_SOURCE_CLASS_LOADERS["stub"] = lambda: StubSource
+            global STUB_ARR
+            STUB_ARR = np.random.RandomState(3).randint(1, 255, size=(300, 520, 3)).astype(np.uint8)
+            pcanvas = np.zeros((1024, 1024, 3), dtype=np.uint8)
+            pcanvas[362:662, 252:772] = STUB_ARR
             work = os.path.join(root, "pipe")
             store = os.path.join(root, "pstore")
             os.makedirs(os.path.join(work, "cache_todo", "imgA"))
@@ -259,7 +289,7 @@ def main():
             tag = "pipeline/LXY/png/520x300"
             h.case((tag,))
             h.count("workflow", "pipeline")
-            check_dir(h, tag, os.path.join(work, "processed", "imgA"), "LXY", lines, py, expect_levels=2, full=False)
+            check_dir(h, tag, os.path.join(work, "processed", "imgA"), "LXY", lines, py, expect_levels=2, full=False, canvas=pcanvas)
         except Exception as e:
             import traceback
             h.violation("pipeline:crash", f"pipeline process_todos with a stub source raised {type(e).__name__}: {e}", input="pipeline", observed=traceback.format_exc()[-600:])
